@@ -1227,8 +1227,16 @@ def giant_append(ctx, aspect, case):
         if fits:
             ctx.violation("giant-append:raises-within-limit", "append of %d rows onto %d rows (total %d <= 2^32) raised %s: %s"
                           % (k, R, R + k, type(e).__name__, e), case)
-        else:
-            ctx.count("giant:append_beyond_limit_refused")
+            return
+        ctx.count("giant:append_beyond_limit_refused")
+        # a refused append must leave the receiver as it was: it goes on being used
+        before = {key: sorted(v) for key, v in entries.items()}
+        now = {key: [int(x) for x in numpy.asarray(v).tolist()] for key, v in dict.items(recv)}
+        if tuple(recv.shape) != (R,) + ((ncols,) if ncols else ()) or recv.common != common or now != before:
+            diff = sorted(set(map(repr, now.items())) ^ set(map(repr, before.items())))[:3]
+            ctx.violation("giant-append:refused-but-receiver-changed",
+                          "append of %d rows onto %d rows was refused (%s) but left the receiver changed: shape %r, entries differing %s"
+                          % (k, R, type(e).__name__, recv.shape, diff), case)
         return
     # it returned: the result must be well-formed and stand for the concatenation
     shape = (R + k,) + ((ncols,) if ncols else ())
